@@ -4,6 +4,9 @@
 //	     filepath.Base/Ext, fileresource names/IRIs, ResolveDecoderType/ResolveEncoderType and
 //	     NewDecoder/NewEncoder on random registries and on rdfio.Registry, the triples/quads adapters,
 //	     the whole decode→adapt→label→encode loop into N-Triples/N-Quads with the rdfio encoder managers.
+//	     (cfg.go) raw `--out-param` lists and encoder bases through the real rdfio encoder managers of all four targets
+//	     (documents byte-/token-identical to Model/Pipe.lean `pipeTtlWith` / `pipeRJ` / `pipeNQp`), the encoder base
+//	     through Registry.OpenEncoder, and one probe per hypothesis of the Turtle / RDF-JSON composition theorems.
 //	E2E  the `rdfkit` binary built from <repo>/cmd/rdfkit converts documents of the eight source formats
 //	     into the four target formats; outputs are re-read with the library decoders and compared with the
 //	     source dataset up to blank-node isomorphism (default graph only for triples targets, as the
@@ -52,7 +55,7 @@ type gen struct {
 func main() {
 	flag.Parse()
 	seed := vh.SeedFromEnv()
-	rep := vh.NewReport("C18", *tier, seed, "T3: random registries (aliases/media types/extensions/magic rules over 5 types, shadowing and suffix-overlapping keys included) and the real registry with every alias/identifier/media type/extension, case variants, double extensions and 15 probe documents; adapter and label runs over labelled, anonymous and foreign blank nodes. E2E: documents of 8 source formats (library encoders on random datasets, serialisers for TriG/RDF-XML/JSON-LD/HTML+RDFa, hand-written templates with anonymous nodes and collections, W3C suite documents) × 4 targets × parameters × type given by alias, identifier, extension, sniffing, HTTP media type, stdin. Non-trivial = T3 line with a non-empty type/media/magic/name or statement list; E2E case whose source is non-empty and whose output was compared")
+	rep := vh.NewReport("C18", *tier, seed, "T3: random registries (aliases/media types/extensions/magic rules over 5 types, shadowing and suffix-overlapping keys included) and the real registry with every alias/identifier/media type/extension, case variants, double extensions and 15 probe documents; adapter and label runs over labelled, anonymous and foreign blank nodes; option plumbing: random --out-param lists (the words of strconv.ParseBool incl. rejected ones, implied values, repeated and unknown keys, prefix lists mixing rdfa-context / none / user prefixes / malformed entries) × 6 encoder bases × statements over IRIs inside and outside the RDFa-context namespaces and near the base, numeric/boolean shorthand literals, handed to the real encoder managers of the four targets (for sorted or nested Turtle output and RDF/JSON only labelled nodes, for unbuffered nested output one subject: fresh UUID texts / Go's map order would decide the section order). E2E: documents of 8 source formats (library encoders on random datasets, serialisers for TriG/RDF-XML/JSON-LD/HTML+RDFa, hand-written templates with anonymous nodes and collections, W3C suite documents) × 4 targets × parameters × type given by alias, identifier, extension, sniffing, HTTP media type, stdin. Non-trivial = T3 line with a non-empty type/media/magic/name or statement list; E2E case whose source is non-empty and whose output was compared")
 	g := &gen{r: vh.NewRng(seed), seed: seed, rep: rep, knownSeen: map[string]int{}}
 	fs, err := vh.LoadFindings(*findings)
 	if err != nil {
@@ -132,6 +135,8 @@ func main() {
 			g.abstractCases(nT3)
 			g.realCases(nT3 * 2)
 			g.pipeCases(nT3)
+			g.cfgCases(nT3)
+			g.hypCases()
 		}
 		g.e2e(nE2E)
 	}
